@@ -58,12 +58,13 @@ End Faults.
 Theorem jsight_must_be_first read_body banned fuel d rest :
   N.eqb (d_kind d) DirectiveTables.dir_Jsight = false ->
   forall c0, collect_tags empty_catalog (d :: rest) = COk c0 ->
+  dup_type_error [] (d :: rest) = None ->
   type_without_body (d :: rest) = None ->
   (exists x, collect_paths fuel (d :: rest) [] None = inl x) ->
   missed_path_errors (d :: rest) = None ->
   exists e, build_catalog read_body banned fuel (d :: rest) = CErr e /\
             e_index e = co_begin (d_kw d) /\ m_args (e_msg e) = [str ErrConsts.jerr_DirectiveJSIGHTShouldBeTheFirst].
 Proof.
-  intros Hk c0 Ht Hty [x Hp] Hm. unfold build_catalog. rewrite Ht, Hty, Hp, Hm, Hk. cbn [negb].
+  intros Hk c0 Ht Hdt Hty [x Hp] Hm. unfold build_catalog. rewrite Ht, Hdt, Hty, Hp, Hm, Hk. cbn [negb].
   unfold kerr1, kerr. eexists. repeat split.
 Qed.
